@@ -26,6 +26,11 @@ CHECKS = {
    text='14 kernel-checked theorems about a line-by-line model of persist(): every BackOff delay lies in [min_wait, max_wait], equals min + u*min(max-min, 2^k) with k the number of trailing attempts without Ready, events of every attempt pass through unchanged and in order followed by exactly one BackOff, the generator ends iff exit_event.wait returned true and right after that BackOff, never by itself, and connect() receives poll/ping_rate/ping_timeout as given (generated fact). Tied to the code by running the real persist() with scripted random() draws (dyadic, exact float arithmetic), a scripted exit event, scripted websockets and the real WebSocket on the simulated world.',
    note='Float rounding for non-dyadic parameters, the real threading.Event and real sleeping are outside the model. Trusted: Lean kernel, translator (persist->connect keyword facts), correspondence harness.',
    ref='6 C16'),
+ 'C17': dict(
+   technique='Lean 4 proof (decidable statements over attribute-write facts regenerated from the source by the translator; the model constructs every connection from scratch) + differential correspondence (reconnect on a used object vs a fresh object)',
+   text='The model builds each connection from its own arguments only (fresh_equiv, initial_state), so the theorem content is that this is faithful to the Python object: kernel-checked statements over facts re-extracted from /repo on every run - connect() starts with reset(), reset() assigns a new State, connect() creates a new session, the only attributes written on the WebSocket outside __init__ are state and attributes of state, every written state attribute is initialised by State.__init__, every attribute written on stream / frame parser / parser / session objects is assigned in their __init__, each model field is carried by an instance attribute, and no stateful class has class-level objects. Moving state out of State, dropping the reset, or making an attribute class-level breaks a theorem. Behaviourally: 20+ abnormal endings (mid-header, mid-frame, mid-fragment, mid-UTF-8, deflate negotiated, closing, rejected, failed, abandoned four ways, timers advanced) x next-connection histories on one real object, compared with the same history on a fresh object (model-free) and with the model.',
+   note='The theorems are about the translator\'s facts (AST walk: attribute assignments self.x = ..., first statement of connect, class-level assignments); aliasing through other references or module-level state would escape them and is covered only by the behavioural correspondence. Trusted: Lean kernel, harness/translate.py, world.run_chain.',
+   ref='6 C17'),
  'C18': dict(
    technique='Lean 4 proof (invariant over loop cycles of a transport/selector model, safety and liveness) + differential correspondence + real loopback TCP/TLS runs',
    text='9 kernel-checked theorems about a model of SelectorBase.wait + _recv + the receive loop over a plain and a TLS-like transport with timestamped arrivals: a wait never consumes virtual time while bytes are buffered in the kernel or decrypted-but-unread in the TLS layer, the chunks fed are a prefix of the arrivals in order (each <= BUFFER_SIZE, generated from source), every byte is fed at the tick it arrived and all bytes are eventually fed; and the variant without the pending() short-cut is proved to stall. Tied to the code by running the real SelectorBase.wait and the real session loop on simulated plain/TLS-like transports (bursts around 16 KiB and 64 KiB, hundreds of frames per record) and comparing the transport log with the model; real loopback TCP and TLS echo runs in the thorough tier.',
